@@ -26,7 +26,7 @@ import time
 
 VERIF = os.path.dirname(os.path.dirname(os.path.abspath(__file__)))
 SPEC = os.path.join(VERIF, "spec")
-EVID = os.path.join(VERIF, "evidence")
+EVID = os.environ.get("VERIF_EVIDENCE_DIR") or os.path.join(VERIF, "evidence")
 REPLAY = os.path.join(EVID, "replay")
 REPO = os.environ.get("JINNS_REPO", "/repo")
 NCPU = int(os.environ.get("VERIF_WORKERS", str(os.cpu_count() or 4)))
